@@ -101,6 +101,15 @@ func (m c16) sweep(c *Ctx, names []string) {
 					for card := 0; card < 4; card++ {
 						r := jsonapi.Rel{FromType: ft, FromName: fn, ToType: tt, ToName: tn, ToOne: card&1 == 1, FromOne: card&2 == 2}
 						if ft == tt && fn == tn && r.ToOne != r.FromOne {
+							// a relationship that is its own inverse cannot have two cardinalities: the laws about
+							// Normalize do not apply to such a value, but inverting it twice still gives it back
+							var inv2 jsonapi.Rel
+							if pi := Guard(func() { i1 := r.Invert(); inv2 = i1.Invert() }); pi != nil {
+								c.Violate("panic@"+pi.Frame, "%s: %s", relStr(r), pi)
+							} else if inv2 != r {
+								c.Violate("invert-not-involution/self-inverse", "Invert(Invert(%s)) = %s", relStr(r), relStr(inv2))
+							}
+							c.Count("self_inverse_involutions")
 							continue
 						}
 						m.checkRel(c, r)
@@ -184,6 +193,14 @@ func (m c16) Case(c *Ctx, r *RNG) {
 			continue
 		}
 		n2 := r.Pick(c16Names)
+		if a == b && r.Chance(1, 4) {
+			// a relationship that is its own inverse (people.friends <-> people.friends): one entry, one cardinality
+			used[names[a]+"\x00"+n1] = true
+			one := r.Bool()
+			s.Types[a].Rels = append(s.Types[a].Rels, RelSpec{Name: n1, ToOne: one, ToType: names[a], ToName: n1, FromOne: one})
+			c.Count("self_inverse_relationships")
+			continue
+		}
 		if used[names[b]+"\x00"+n2] || (a == b && n1 == n2) {
 			continue
 		}
